@@ -36,7 +36,9 @@ let mz_decode a =
             mz_cident = (if str a "ident" "ep" = "ep" then Some (Some (mz_nat sz)) else None);
             mz_cclaim = mz_opt_zone (str a "claim" "-") } in
   let m = { mz_objzone = mz_opt_zone (str a "oz" "-"); mz_is_cmdep = (num a "ce" 0 <> 0) } in
-  let ts = match str a "ts" "none" with "old" -> MzTsOld | "new" -> MzTsNew | _ -> MzTsNone in
+  (* ts=eq: the message's ts EQUALS the sending endpoint's remote log position (a second event of the same clock tick): "not
+     older", i.e. the model's MzTsNew branch - the position is set to the value it already has *)
+  let ts = match str a "ts" "none" with "old" -> MzTsOld | "new" | "eq" -> MzTsNew | _ -> MzTsNone in
   (t, c, s, m, ts, str a "m" "")
 
 let b2i b = if b then 1 else 0
@@ -76,6 +78,10 @@ let mz_decode_om a m =
   let rel k = match str a k "" with "" -> m.mz_objzone | v -> mz_opt_zone v in
   { mz_om = m; mz_ockzone = rel "ckz"; mz_ohostzone = rel "hz" }
 
+let mz_decode_zp a = match str a "zp" "" with
+    | "" -> (match mz_opt_zone (str a "oz" "-") with None -> MzZEmpty | Some z -> MzZKnown z)   (* the harness sends the object's own zone *)
+    | "e" -> MzZEmpty | "x" -> MzZUnknown | z -> MzZKnown (mz_nat (int_of_string z))
+
 let op_mz_msg a =
   let (t, c, s, m, ts, meth) = mz_decode a in
   if mz_qmode a then begin
@@ -100,7 +106,7 @@ let op_mz_msg a =
     (match mz_changed_zones o om with
      | [] -> " chz=."
      | l -> " chz=" ^ String.concat "," (List.sort_uniq compare (List.map (function None -> "n" | Some z -> string_of_int (mz_int z)) l))) in
-  emit (Printf.sprintf "msg rlp=%d app=%d%s%s" (b2i o.mz_rlp) (b2i o.mz_applied) chz cz)
+  emit (Printf.sprintf "msg rlp=%d app=%d%s%s" (if str a "ts" "none" = "eq" then 0 else b2i o.mz_rlp) (b2i o.mz_applied) chz cz)
 
 let op_mz_zoneless _ = emit "zoneless rejected=1"
 
@@ -146,6 +152,11 @@ let oracle_c13_case script trace =
            end else
              let o = { mz_dropped = false; mz_rlp = (geti "rlp" = 1); mz_applied = (geti "app" = 1) } in
              let c1 = mz_int (mz_oracle_i t c s m (mz_index meth) o) in
+             (* C13_equal_ts_processed: a message whose ts equals the sender's log position is handled exactly like one
+                without ts - if that one is applied, so is this one (ts is a clock value, not an event id) *)
+             let c1 = if c1 = 0 && str a "ts" "none" = "eq" && geti "app" = 0 &&
+                         (mz_run_objk_i t c s (mz_decode_om a m) MzTsNone (mz_index meth) (mz_decode_zp a) (str a "ro" "c" <> "x")).mz_applied
+                      then 14 else c1 in
              if c1 <> 0 || num a "chz" 0 = 0 then c1 else begin
                (* every object that changed must be one the sender is entitled to change *)
                let zs = match tok_val toks "chz" with
@@ -157,6 +168,7 @@ let oracle_c13_case script trace =
            fail (Printf.sprintf "msg=%d code=%d %s m=%s ep=%s" !idx code
                    (match code with 1 -> "unclassified-method-applied" | 2 -> "applied-not-entitled" | 3 -> "inert-method-had-effect"
                                   | 5 -> "log-position-moved-without-endpoint"
+                                  | 14 -> "equal-ts-message-not-processed"
                                   | 6 -> "command-handled-for-sender-outside-own-or-parent-zone"
                                   | 7 -> "command-forwarded-to-target-outside-subtree"
                                   | 8 -> "command-handed-to-zone-off-path"
